@@ -39,6 +39,7 @@ def cmd_check(args):
     tier = args.tier or os.environ.get("VERIF_TIER") or "quick"
     if tier not in ("quick", "thorough"):
         tier = "quick"
+    lib.CURRENT_TIER = tier
     seed = int(os.environ.get("VERIF_SEED", "20260926"))
     report = lib.Report(pid, tier, seed)
     try:
